@@ -363,8 +363,138 @@ fn run(ctx: &Ctx) -> ScenarioResult {
     }
 }
 
-pub fn def(_ctx: &Ctx) -> PropertyDef {
-    let scenarios = vec![Scenario {
+// ---------------------------------------------------------------------------------------------- seq
+// The same rule through the whole pipeline: reads -> pool buffers -> consumer -> sketch -> admission.
+use crate::harness::kit::*;
+use crate::harness::seq::{seq_scenario, Finding, SeqOracle, SeqRun, SeqSpec};
+use crate::props::common::{is_put_path, model_read};
+
+fn pipeline_oracle() -> SeqOracle {
+    Arc::new(|run: &SeqRun, out: &mut Vec<Finding>| {
+        let i = run.last();
+        let c = &run.calls[i];
+        if !(matches!(c.op, Op::Put { .. }) || is_put_path(c)) {
+            return;
+        }
+        let (b, a) = (run.before(), run.after());
+        let st = run.statuses[i];
+        let k = c.op.key().unwrap();
+        let w_in = match &c.op {
+            Op::Put { w: Some(w), .. } | Op::Upsert { w: Some(w), .. } => *w,
+            _ => return,
+        };
+        if b.entry(k).is_some() {
+            return; // answered on the spot / not an admission
+        }
+        let est_of_key = |key: K| b.estimates.get((key - 1) as usize).copied().unwrap_or(0);
+        let key_of_id = |id: u64| b.weights.iter().find(|w| w.0 == id).map(|w| w.1);
+        let free = b.max_weight - b.weight_used;
+        let rounds: Vec<&Vec<i64>> = run.events_per_step[i].iter().filter(|e| e.kind == "admission_victim").map(|e| &e.data).collect();
+        if w_in > b.max_weight {
+            if st != Some(CommandStatus::Rejected(RejectionReason::KeyWeightIsGreaterThanCacheWeight)) || a.store != b.store {
+                out.push(Finding::new("too-heavy", "admission:too-heavy-key-not-rejected-for-that-reason", format!("{} (cache weight {}) ended with {:?}", c.op.short(), b.max_weight, st.map(|s| status_short(&s)))));
+            }
+            return;
+        }
+        if free >= w_in {
+            if st != Some(CommandStatus::Accepted) || !rounds.is_empty() || b.store.iter().any(|e| a.entry(e.0).is_none()) {
+                out.push(Finding::new("fits", "admission:fitting-put-refused-or-evicted", format!("{} fits in the free space {} but ended with {:?} after {} eviction rounds", c.op.short(), free, st.map(|s| status_short(&s)), rounds.len())));
+            }
+            return;
+        }
+        let inc_est = est_of_key(k);
+        let mut freed = free;
+        let mut stopped = false;
+        for (ri, e) in rounds.iter().enumerate() {
+            let (ev_inc, vid, vw, vest, n) = (e[2] as u8, e[4] as u64, e[5], e[6] as u8, e[7] as usize);
+            let sample: Vec<(u64, i64, u8)> = (0..n).map(|j| (e[8 + 3 * j] as u64, e[9 + 3 * j], e[10 + 3 * j] as u8)).collect();
+            let ctx = format!("round {} of {}: sample {:?}, victim #{} (w {}, estimate {}), incoming estimate {}", ri + 1, c.op.short(), sample, vid, vw, vest, ev_inc);
+            if ev_inc != inc_est {
+                out.push(Finding::new("incoming-estimate", "admission:incoming-estimate-differs", format!("{} but the sketch estimated the incoming key at {} before the call", ctx, inc_est)));
+            }
+            for s in &sample {
+                match key_of_id(s.0) {
+                    Some(key) => {
+                        if est_of_key(key) != s.2 {
+                            out.push(Finding::new("sample-attributes", "admission:sample-weight-or-estimate-wrong", format!("{} but key {} (id #{}) had estimate {} before the call", ctx, key, s.0, est_of_key(key))));
+                        }
+                    }
+                    None => out.push(Finding::new("sample-foreign", "admission:sample-contains-non-resident", ctx.clone())),
+                }
+            }
+            let min_est = sample.iter().map(|s| s.2).min().unwrap_or(0);
+            if vest != min_est {
+                out.push(Finding::new("victim-not-coldest", "admission:victim-not-coldest", format!("{} but the coldest sampled estimate is {}", ctx, min_est)));
+            }
+            if stopped || freed >= w_in {
+                out.push(Finding::new("extra-round", "admission:round-after-enough-space", ctx.clone()));
+            }
+            let victim_key = key_of_id(vid);
+            let gone = victim_key.map(|vk| a.entry(vk).map(|x| x.2 != vid).unwrap_or(true)).unwrap_or(true);
+            if vest > inc_est {
+                stopped = true;
+                if gone {
+                    out.push(Finding::new("hotter-key-evicted", "admission:colder-key-evicted-hotter-one", format!("{}: the victim is hotter than the incoming key but is gone", ctx)));
+                }
+            } else {
+                freed += vw;
+                if !gone {
+                    out.push(Finding::new("victim-not-evicted", "admission:victim-not-evicted", ctx.clone()));
+                }
+                // evicted keys are unreadable afterwards
+                if let Some(vk) = victim_key {
+                    if vk != k && model_read(a, vk).0.is_some() && a.entry(vk).map(|x| x.2 == vid).unwrap_or(false) {
+                        out.push(Finding::new("evicted-key-readable", "admission:evicted-key-still-readable", ctx.clone()));
+                    }
+                }
+            }
+        }
+        let should_accept = freed >= w_in;
+        if should_accept != (st == Some(CommandStatus::Accepted)) {
+            out.push(Finding::new("accept-iff-space", if should_accept { "admission:enough-space-but-rejected" } else { "admission:accepted-without-space" }, format!("{}: {} free after the rounds for weight {}, status {:?}", c.op.short(), freed, w_in, st.map(|s| status_short(&s)))));
+        }
+        if !should_accept && !stopped && b.weights.len() > rounds.len() {
+            out.push(Finding::new("unjustified-stop", "admission:stopped-without-reason", format!("{} was rejected although residents remain and no examined victim was hotter (incoming estimate {})", c.op.short(), inc_est)));
+        }
+        if a.weight_used > a.max_weight {
+            out.push(Finding::new("over-limit", "admission:total-over-limit", format!("{} left the total at {} > {}", c.op.short(), a.weight_used, a.max_weight)));
+        }
+        let evicted = b.store.iter().filter(|e| e.0 != k && a.entry(e.0).is_none()).count() as u64;
+        if a.stats[KEYS_DELETED] - b.stats[KEYS_DELETED] != evicted {
+            out.push(Finding::new("evicted-count", "admission:keys-deleted-differs-from-evictions", format!("{} evicted {} keys but KeysDeleted moved by {}", c.op.short(), evicted, a.stats[KEYS_DELETED] - b.stats[KEYS_DELETED])));
+        }
+    })
+}
+
+fn pipeline_spec(ctx: &Ctx, w: i64) -> SeqSpec {
+    let mut alphabet: Vec<Op> = Vec::new();
+    for k in 1..=4u64 {
+        alphabet.push(Op::Read { k, variant: ReadVariant::Get });
+    }
+    for (k, wt) in [(1u64, 1i64), (2, 2), (3, 1), (3, 3), (4, 2), (4, w), (4, w + 1)] {
+        alphabet.push(Op::Put { k, w: Some(wt), ttl_ms: None });
+    }
+    alphabet.push(Op::Delete { k: 1 });
+    SeqSpec {
+        name: format!("seq/admission-through-the-pipeline/W={}", w),
+        // buffer 1: every second hit hands a one-element buffer to the consumer; large window: no ageing in between
+        setup: Setup { weight: w, buffer: 1, counters: 256, ..Setup::default() },
+        world: Default::default(),
+        prefix: vec![],
+        alphabet,
+        depth: if ctx.quick() { 7 } else { 8 },
+        allow: None,
+        oracle: pipeline_oracle(),
+        keys: vec![1, 2, 3, 4],
+        canon_sketch: true,
+        ghost_key: None,
+        max_states: 3_000_000,
+        time_cap_s: 20.0,
+    }
+}
+
+pub fn def(ctx: &Ctx) -> PropertyDef {
+    let mut scenarios = vec![Scenario {
         name: "exh/admission-decision-table".into(),
         run: Box::new(run),
         replay: Box::new(|doc| -> ReplayOutcome {
@@ -379,10 +509,14 @@ pub fn def(_ctx: &Ctx) -> PropertyDef {
             Ok(out)
         }),
     }];
+    for w in [3i64, 4] {
+        let name = pipeline_spec(ctx, w).name;
+        scenarios.push(seq_scenario(move |c| pipeline_spec(c, w), &name));
+    }
     PropertyDef {
         id: "C06",
-        technique: "exhaustive enumeration of the admission decision table on the real AdmissionPolicy (residents x weights x access-frequency profiles x incoming key), oracle evaluated per eviction round from the admission_victim events with read-back estimates",
-        rule: "exh: every case of the enumerated table; distinct_nontrivial = distinct cases in which at least one eviction round ran",
+        technique: "exhaustive enumeration of the admission decision table on the real AdmissionPolicy (residents x weights x access-frequency profiles x incoming key), oracle evaluated per eviction round from the admission_victim events with read-back estimates; plus explicit-state BFS at CacheD level through reads -> buffers -> consumer -> sketch -> admission",
+        rule: "exh: every case of the enumerated table; distinct_nontrivial = distinct cases in which at least one eviction round ran; seq: canonical states first reached at depth >= 2",
         assumptions: vec![
             "estimates are read back from the sketch and used as inputs, so bloom-filter false positives and counter collisions cannot cause a false alarm",
             "any member of a tie may be chosen as victim; which residents form the sample is taken from the event, only its size, distinctness and membership are checked",
